@@ -261,4 +261,35 @@ def fam_tree(seed, i):
     return sc
 
 
-FAMILIES = {"core": fam_core, "life": fam_life, "fail": fam_fail, "restart": fam_restart, "timeout": fam_timeout, "timers": fam_timers, "tree": fam_tree}
+def fam_registry(seed, i):
+    """C08 C14: concurrent histories of the registry operations on 1-2 service types."""
+    rng = random.Random(f"registry-{seed}-{i}")
+    sc = base("registry", seed, i, rng, horizon=6)
+    ntypes = rng.choice([1, 1, 2])
+    types = ["1", "2"][:ntypes]
+    ncl = rng.randint(1, 4)
+    cl = [f"c{k+1}" for k in range(ncl)]
+    handles = {c: {} for c in cl}
+    main = []
+    # some explicitly spawned instances of the service types, to be registered / to replace
+    for k in range(rng.choice([0, 1, 1, 2])):
+        c = rng.choice(cl)
+        ty = rng.choice(types)
+        main.append({"op": "spawn", "a": f"a{k+1}", "nh": f"s{k+1}", "cfg": {"ty": ty, "pscr": [Y] * rng.choice([0, 1]), "sscr": [[Y] * rng.choice([0, 1])]}, "entry": "builder"})
+        main.append({"op": "give", "h": f"s{k+1}", "to": c})
+        handles[c][f"s{k+1}"] = "addr"
+    if rng.random() < 0.3:
+        main.append({"op": rng.choice(["from_registry", "setup"]), "ty": rng.choice(types), "nh": "m0"})
+    sc["clients"]["main"] = main or [{"op": "yield"}]
+    w = {"from_registry": 6, "setup": 1.5, "register": 2, "replace": 1.5, "unregister": 2, "try_from_registry": 3, "already_running": 3,
+         "stop": 2, "await": 1, "await_ref": 0.7, "stopped": 2, "running": 1, "send": 2, "call": 2, "drop": 2, "yield": 3, "clone": 0.5, "halt": 0.7}
+    scripts = [[], [Y], [eff("ctx_stop")], [eff("ctx_stop")]]
+    cnt = [0]
+    for c in cl:
+        p = Prog(rng, c, handles[c], w, scripts, cnt)
+        p.types = types
+        sc["clients"][c] = p.run(rng.randint(2, 8))
+    return sc
+
+
+FAMILIES = {"core": fam_core, "life": fam_life, "fail": fam_fail, "restart": fam_restart, "timeout": fam_timeout, "timers": fam_timers, "tree": fam_tree, "registry": fam_registry}
